@@ -32,9 +32,9 @@ class FuncInfo:
         return f"{self.mod.rel}:{self.node.lineno}"
 
     def decorators(self):
-        out = []
-        for d in self.node.decorator_list:
-            out.append(ast.unparse(d))
+        out = self.__dict__.get("_decorators")
+        if out is None:
+            out = self.__dict__["_decorators"] = [ast.unparse(d) for d in self.node.decorator_list]
         return out
 
     @property
@@ -275,6 +275,13 @@ class Repo:
         raise AnalysisError(f"class name {name} is ambiguous: {[c.loc for c in cs]}")
 
     def mro(self, c: ClassInfo):
+        cache = self.__dict__.setdefault("_mro_cache", {})
+        r = cache.get(id(c))
+        if r is None:
+            r = cache[id(c)] = self._mro(c)
+        return list(r)
+
+    def _mro(self, c: ClassInfo):
         out, seen = [], set()
 
         def walk(ci):
